@@ -159,6 +159,13 @@ Definition var_bounds (v : var) : list bnd :=
   | VPerm n => [BPerm n]
   end.
 Definition bounds (t : task) : list bnd := flat_map (fun nv => var_bounds (snd nv)) t.
+(* the two sides of a variable's own bounds, each as a list (a scalar variable contributes one entry): what `v.get_bounds()` hands to Task.get_bounds after the
+   `x if v.has_children() else [x]` normalisation *)
+Inductive bside := BSNum (x : xnum) | BSPermLo (n : nat) | BSPermHi (n : nat).
+Definition lower_of (b : bnd) : bside := match b with BNum lo _ => BSNum lo | BPerm n => BSPermLo n end.
+Definition upper_of (b : bnd) : bside := match b with BNum _ hi => BSNum hi | BPerm n => BSPermHi n end.
+Definition lowers (v : var) : list bside := map lower_of (var_bounds v).
+Definition uppers (v : var) : list bside := map upper_of (var_bounds v).
 
 (* correct_solution: zip(solution, variables) truncates to the shorter of the two *)
 Definition correct_solution (t : task) (x : list coord) : option (list coord) :=
